@@ -419,6 +419,10 @@ func runC06(r *core.Run) (bool, string) {
 			// every package of the corpus translates (or fails with errors) on its own; an abort of the
 			// invocation that takes them all is the packages influencing each other, or a race
 			r.Violate("all-packages-invocation-crashed", "goose aborts when all "+fmt.Sprint(len(s.pkgs))+" corpus packages are translated in one invocation: "+why, map[string]interface{}{"command": ref.iv.cmdline(), "stderr": clip(ref.iv.res.Stderr, 6000)})
+			// the usual reason is a data race between the per-package workers: let the race detector name it
+			if raceErr == nil {
+				s.racePhase(raceBin, map[string]c06RunResult{}, allPatterns)
+			}
 			return true, ""
 		}
 		refs[fs.Name] = ref
@@ -533,12 +537,37 @@ func runC06(r *core.Run) (bool, string) {
 	// ---- 2b. shapes of the pattern list (repeated / overlapping / nested / respelled / reordered patterns)
 	s.runShapes()
 
+	// ---- 2c. packages whose import paths map to one Coq path: the outcome of a command line is the same in every run
+	s.runCollisions()
+
 	// ---- 3. the race build over the same workload
 	wg.Wait()
 	if raceErr != nil {
 		r.Inconclusive("race-build-failed")
 		return false, "cannot build goose -race: " + raceErr.Error()
 	}
+	s.racePhase(raceBin, refs, allPatterns)
+
+	inv := r.GetCount("goose_invocations")
+	r.Set("distinct_groupings", r.DistinctCount())
+	if inv < 20 {
+		return false, fmt.Sprintf("only %d invocations (floor 20)", inv)
+	}
+	if r.GetCount("race_build_invocations") < 1 {
+		return false, "the race build did not run"
+	}
+	if r.GetCount("files_compared_with_singleton_run") < 50 {
+		return false, "fewer than 50 files compared with singleton runs"
+	}
+	if r.GetCount("pattern_shape_invocations") < 5 || r.GetCount("pattern_shape_error_blocks_matched") < 10 {
+		return false, "fewer than 5 pattern-list shapes judged / fewer than 10 error blocks of failing packages attributed under them"
+	}
+	return true, ""
+}
+
+// racePhase runs the -race build of goose over all packages and reports the data races with a goose frame.
+func (s *c06State) racePhase(raceBin string, refs map[string]c06RunResult, allPatterns []string) {
+	r := s.r
 	nrace := r.Pick(6, 100)
 	raceDir := filepath.Join(r.Scratch, "c06race")
 	os.MkdirAll(raceDir, 0o755)
@@ -555,6 +584,9 @@ func runC06(r *core.Run) (bool, string) {
 		}
 		// the race build must also produce the reference output (exit status 66 would
 		// only appear with halt_on_error; it is not trusted either way)
+		if _, haveRef := refs[fs.Name]; !haveRef {
+			return
+		}
 		if d := diffTrees(refs[fs.Name].tree, got.tree); len(d) > 0 {
 			r.Violate("nondeterministic-output-"+s.classOfFile(d[0]), fmt.Sprintf("race build run %d differs from the reference tree in %d files, first %s", i, len(d), d[0]),
 				map[string]interface{}{"command": got.iv.cmdline(), "first_difference": firstDiff(refs[fs.Name].tree[d[0]], got.tree[d[0]])})
@@ -596,20 +628,4 @@ func runC06(r *core.Run) (bool, string) {
 		r.Violate("race-"+sig, "the race detector reports a data race in goose while translating many packages in one invocation",
 			map[string]interface{}{"report": clip(blk, 6000), "workload": fmt.Sprintf("goose(-race) %v on %d packages", allPatterns, len(s.pkgs))})
 	}
-
-	inv := r.GetCount("goose_invocations")
-	r.Set("distinct_groupings", r.DistinctCount())
-	if inv < 20 {
-		return false, fmt.Sprintf("only %d invocations (floor 20)", inv)
-	}
-	if r.GetCount("race_build_invocations") < 1 {
-		return false, "the race build did not run"
-	}
-	if r.GetCount("files_compared_with_singleton_run") < 50 {
-		return false, "fewer than 50 files compared with singleton runs"
-	}
-	if r.GetCount("pattern_shape_invocations") < 5 || r.GetCount("pattern_shape_error_blocks_matched") < 10 {
-		return false, "fewer than 5 pattern-list shapes judged / fewer than 10 error blocks of failing packages attributed under them"
-	}
-	return true, ""
 }
